@@ -699,13 +699,15 @@ fn thread_programs(ctx: &Ctx) -> Vec<Program> {
     vec![vec![KIns(1), KDel(KRef::Pre(0))], vec![KIns(2), KSign(KRef::Pre(0))], vec![KEx(KRef::Pre(0)), KGen]],
     None,
   ));
+  // the statement's own race, at the largest thread count whose schedules can all be run in the quick tier
+  v.push(mk("4 inserts of one digest", vec![], 0, vec![vec![IIns(0, 0)], vec![IIns(0, 1)], vec![IIns(0, 2)], vec![IIns(0, 0)]], Some(2_000_000)));
   if ctx.thorough() {
     let cap = Some(2_000_000);
     v.push(mk(
-      "generate+insert_key_id+sign own, twice for one digest, vs get_key_id+delete_key_id",
+      "generate+insert_key_id+sign own vs generate+insert_key_id for the same digest vs get_key_id+delete_key_id",
       vec![],
       0,
-      vec![vec![KGen, IIns(0, 0), KSign(KRef::Own(0))], vec![KGen, IIns(0, 1), KSign(KRef::Own(0))], vec![IGet(0), IDel(0)]],
+      vec![vec![KGen, IIns(0, 0), KSign(KRef::Own(0))], vec![KGen, IIns(0, 1)], vec![IGet(0), IDel(0)]],
       cap,
     ));
     v.push(mk(
@@ -715,7 +717,20 @@ fn thread_programs(ctx: &Ctx) -> Vec<Program> {
       vec![vec![KIns(1), IIns(0, 0)], vec![KIns(1), IIns(0, 1)], vec![IDel(0), IGet(0)]],
       cap,
     ));
-    v.push(mk("4 inserts of one digest", vec![], 0, vec![vec![IIns(0, 0)], vec![IIns(0, 1)], vec![IIns(0, 2)], vec![IIns(0, 0)]], cap));
+    v.push(mk(
+      "4 threads on both stores: 2 inserts of one digest, generate, delete of a shared key",
+      vec![],
+      1,
+      vec![vec![IIns(0, 0)], vec![IIns(0, 1)], vec![KGen], vec![KDel(KRef::Pre(0))]],
+      cap,
+    ));
+    v.push(mk(
+      "4 threads: 2 inserts of the same JWK, sign and delete of a shared key",
+      vec![],
+      1,
+      vec![vec![KIns(1)], vec![KIns(1)], vec![KSign(KRef::Pre(0))], vec![KDel(KRef::Pre(0))]],
+      cap,
+    ));
     v.push(mk("3 inserts of one digest + get", vec![], 0, vec![vec![IIns(0, 0)], vec![IIns(0, 1)], vec![IIns(0, 2)], vec![IGet(0)]], cap));
     v.push(mk("3 x (insert, get)", vec![], 0, vec![vec![IIns(0, 0), IGet(0)], vec![IIns(0, 1), IGet(0)], vec![IIns(0, 2), IGet(0)]], cap));
     v.push(mk(
@@ -757,6 +772,23 @@ fn eval(ctx: &Ctx, case: &Case) {
 }
 
 fn generate(ctx: &Ctx) {
+  // (b) needs nothing from (a): its programs run on the rayon pool while the sequential parts (whose second,
+  // single-threaded stateright runs leave the cores idle) go on; everything of (b) is reported afterwards, in
+  // program order
+  let programs = thread_programs(ctx);
+  let runs = std::thread::scope(|s| {
+    let h = s.spawn(|| programs.par_iter().map(|p| (p.clone(), run_program(p))).collect::<Vec<(Program, ThreadRun)>>());
+    generate_sequential(ctx);
+    h.join()
+  });
+  let runs = match runs {
+    Ok(r) => r,
+    Err(_) => vx::ctx::machinery_exit("(b) the thread that runs the shuttle programs panicked outside a guard"),
+  };
+  report_threads(ctx, runs);
+}
+
+fn generate_sequential(ctx: &Ctx) {
   ctx.rule("(a1) stateright BFS over JwkMemStore op histories (state = history, store rebuilt by replay; fingerprint = model slots + complete observation vector: exists of every issued id and a never-issued id, sign by every id verified under every issued public JWK, count); slots capped so the search closes; second run depth-bounded with the depth in the fingerprint. a further closure run (<= 3 issued ids; in the quick tier the only closure run) offers, on top of all basic operations, the extended op alphabet (same key material under other metadata, unregistered alg, the public part of a generated key with a foreign private part, own public key under another / no kid, delete/exists/sign of never-issued ids derived from the newest issued id: its proper prefix, its extension, one letter's case flipped, the empty id). (a2) the same for KeyIdMemstore over digests (three of which differ pairwise in one byte) x key ids (proper prefixes of each other), to closure. (a3) full product of pairs of verification methods (DIDs x fragments x key material) through MethodDigest::new / pack / unpack and the key-id store. (b) shuttle DFS over all schedules of small thread programs on both stores, brute-force linearizability oracle (program order + real-time order of calls that did not overlap). distinct_nontrivial = unique states of (a1),(a2) + pairs of different methods of (a3) + distinct (program, observed outcome) pairs of (b)");
   ctx.assume("tokio::sync::RwLock is a lock; scheduling points exist exactly where the verif-hooks hook is called (before every lock acquisition of the in-memory stores)");
   ctx.assume("(a1) merges two histories iff model state and the complete observation vector of the rebuilt real store coincide; a difference invisible to every observation at every later step is not excluded (bounded-observation caveat)");
@@ -831,6 +863,9 @@ fn generate(ctx: &Ctx) {
     ctx.bound("method_digest_alphabet", json!({"dids": seq::M_DIDS.len(), "fragments": seq::M_FRAGS.len(), "key_material": seq::M_KEYS.len()}));
   }
 
+}
+
+fn report_threads(ctx: &Ctx, runs: Vec<(Program, ThreadRun)>) {
   // ---------------------------------------------------------------- (b)
   // the oracle of (b) on hand-made executions: it must tell a stale answer from a permitted one
   {
@@ -851,8 +886,6 @@ fn generate(ctx: &Ctx) {
       "(b) oracle self-test: the linearizability oracle misjudges a hand-made execution",
     );
   }
-  let programs = thread_programs(ctx);
-  let runs: Vec<(Program, ThreadRun)> = programs.par_iter().map(|p| (p.clone(), run_program(p))).collect();
   let mut table = serde_json::Map::new();
   let mut total = 0u64;
   for (p, r) in &runs {
@@ -878,7 +911,7 @@ fn generate(ctx: &Ctx) {
     );
   }
   ctx.part("(b) shuttle DFS, racing threads on KeyIdMemstore / JwkMemStore", json!({"engine": "E3 shuttle 0.9 DfsScheduler", "programs": runs.len(), "schedules": total, "detail": table}));
-  ctx.bound("threads", ctx.by_tier("2..3", "2..4 (4-thread programs capped at 2e6 schedules)"));
+  ctx.bound("threads", ctx.by_tier("2..4 (one 4-thread program)", "2..4 (4-thread programs capped at 2e6 schedules)"));
 }
 
 fn main() {
